@@ -262,6 +262,15 @@ func NilCompare(cond ssa.Value) (v ssa.Value, eqNil bool, ok bool) {
 // are resolved by the predecessor actually taken on each path. Bounded: at most maxPaths paths
 // (returns ok=false when exceeded).
 func ResolveAlongPaths(start ssa.Instruction, at ssa.Instruction, v ssa.Value, edgeOK func(*ssa.BasicBlock, int) bool, maxPaths int) (vals map[ssa.Value]bool, ok bool) {
+	var f func(*ssa.BasicBlock, int, func(ssa.Value) ssa.Value) bool
+	if edgeOK != nil {
+		f = func(b *ssa.BasicBlock, si int, _ func(ssa.Value) ssa.Value) bool { return edgeOK(b, si) }
+	}
+	return ResolveAlongPathsR(start, at, v, f, maxPaths)
+}
+
+// ResolveAlongPathsR is ResolveAlongPaths with an edge filter that can resolve phis by the path taken so far.
+func ResolveAlongPathsR(start ssa.Instruction, at ssa.Instruction, v ssa.Value, edgeOK func(*ssa.BasicBlock, int, func(ssa.Value) ssa.Value) bool, maxPaths int) (vals map[ssa.Value]bool, ok bool) {
 	vals = map[ssa.Value]bool{}
 	target := at.Block()
 	type frame struct {
@@ -304,7 +313,7 @@ func ResolveAlongPaths(start ssa.Instruction, at ssa.Instruction, v ssa.Value, e
 			return true
 		}
 		for si, s := range b.Succs {
-			if edgeOK != nil && !edgeOK(b, si) {
+			if edgeOK != nil && !edgeOK(b, si, func(x ssa.Value) ssa.Value { return resolve(x, prev) }) {
 				continue
 			}
 			if onPath[s] {
